@@ -314,6 +314,28 @@ def outcomeOf (s : Store) (T : Nat) : Outcome :=
 def visible (s : Store) (k : Bytes) (ts : Nat) : Option Bytes :=
   (firstVisible (getEntry s.kv k).writes ts).map (·.value)
 
+/-- the commit ts of transaction `T` as its PRIMARY shows it (a data / lock record of `T` on the primary key) -/
+def primaryCommitTS (s : Store) (primary : Bytes) (T : Nat) : Option Nat :=
+  match txnCommitInfo (getEntry s.kv primary).writes T with
+  | some w => if w.vt != .rollback then some w.commitTS else none
+  | none => none
+
+/-- C05: the value a snapshot at `ts` must see on `k` — committed data, and the value of a prewrite lock still on the key
+    whose transaction's PRIMARY is committed at or below `ts` (such a transaction is committed; a reader resolves the lock
+    or reads through it; nothing else can have committed on the key since the lock was written) -/
+def visibleL (s : Store) (k : Bytes) (ts : Nat) : Option Bytes :=
+  match (getEntry s.kv k).lock with
+  | some l =>
+    if l.op == .put || l.op == .del || l.op == .insert then
+      match primaryCommitTS s l.primary l.startTS with
+      | some c => if c ≤ ts then (if l.op == .del then none else some l.value) else visible s k ts
+      | none => visible s k ts
+    else visible s k ts
+  | none => visible s k ts
+
+def snapRangeL (s : Store) (lo hi : Bytes) (ts : Nat) : List (Bytes × Bytes) :=
+  s.kv.filterMap fun p => if inRange lo hi p.1 then (visibleL s p.1 ts).map fun v => (p.1, v) else none
+
 /-- C05: the pairs a snapshot scan of [lo, hi) at `ts` shows, in ascending key order (committed data only) -/
 def snapRange (s : Store) (lo hi : Bytes) (ts : Nat) : List (Bytes × Bytes) :=
   s.kv.filterMap fun p => if inRange lo hi p.1 then (visible s p.1 ts).map fun v => (p.1, v) else none
